@@ -20,7 +20,7 @@ import (
 
 // events: [0,name,id,kind,m] Begin of a Do* call (kind%4: 0 Do, 1 DoWithAcceptable, 2 DoWithFallback,
 // 3 DoWithFallbackAcceptable; m = coin*2^53) | [1,id,outcome] its req returns (0 nil, 1 acceptable
-// error, 2 unacceptable error, 3 panic(string), 4 panic(nil)) | [2,name,id,m] Allow | [3,id] promise.Accept |
+// error, 2 unacceptable error, 3 panic(string), 4 panic(nil), 5 ErrServiceUnavailable of an inner breaker) | [2,name,id,m] Allow | [3,id] promise.Accept |
 // [4,id] promise.Reject | [5,dt] advance the virtual clock.
 type verifCase struct {
 	Events [][]int64 `json:"events"`
@@ -110,7 +110,8 @@ func TestVerifDriver(t *testing.T) {
 				// 3 DoWithFallbackAcceptable; predicate (used by variants 1 and 3 only) 0 nil or the
 				// acceptable error, 1 REJECTS nil (judges something else: only the acceptable error
 				// passes), 2 accepts every error, 3 accepts nothing
-				name, id, kind, pred := ev[1], ev[2], ev[3]%4, ev[3]/4
+				// + 16: through the package-level Do* functions of the registry (breakers.go) instead of a Breaker handle
+				name, id, kind, pred, viaReg := ev[1], ev[2], ev[3]%4, (ev[3]/4)%4, ev[3]/16 == 1
 				b, g, src := get(name)
 				gb = g
 				src.next = ev[4]
@@ -128,6 +129,10 @@ func TestVerifDriver(t *testing.T) {
 						panic("verif panic")
 					case 4:
 						panic(nil) // recover() yields nil for it (go.mod: go 1.19)
+					case 5:
+						// the protected function itself fails with ErrServiceUnavailable: an inner dependency's
+						// breaker is open while THIS breaker has let the call in
+						return ErrServiceUnavailable
 					}
 					return nil
 				}
@@ -153,14 +158,23 @@ func TestVerifDriver(t *testing.T) {
 						call.panicked = recover()
 						call.unwound = !call.completed
 					}()
-					switch kind {
-					case 0:
+					bname := b.Name()
+					switch {
+					case viaReg && kind == 0:
+						call.ret = Do(bname, req)
+					case viaReg && kind == 1:
+						call.ret = DoWithAcceptable(bname, req, acceptable)
+					case viaReg && kind == 2:
+						call.ret = DoWithFallback(bname, req, fallback)
+					case viaReg:
+						call.ret = DoWithFallbackAcceptable(bname, req, fallback, acceptable)
+					case kind == 0:
 						call.ret = b.Do(req)
-					case 1:
+					case kind == 1:
 						call.ret = b.DoWithAcceptable(req, acceptable)
-					case 2:
+					case kind == 2:
 						call.ret = b.DoWithFallback(req, fallback)
-					case 3:
+					default:
 						call.ret = b.DoWithFallbackAcceptable(req, fallback, acceptable)
 					}
 					call.completed = true
@@ -210,6 +224,11 @@ func TestVerifDriver(t *testing.T) {
 				case 4:
 					if call.unwound && call.panicked == nil && !call.fbRan {
 						code = 14
+					}
+				case 5:
+					// the caller gets the function's own ErrServiceUnavailable; the fallback did NOT run
+					if call.ret == ErrServiceUnavailable && !call.unwound && !call.fbRan {
+						code = 15
 					}
 				}
 			case 2:
